@@ -147,6 +147,8 @@ def _worker(args):
     samples = []
     cases = 0
     err = None
+    invalid = 0
+    invalid_example = None
     try:
         idx = w
         while idx < n:
@@ -157,6 +159,11 @@ def _worker(args):
             sc = prop.generate(seed, idx, tier)
             res = prop.check(sc, ctx)
             cases += 1
+            if res.get("invalid") is not None:
+                # the generator produced a case its own renderer / model rejects: a defect of the harness, never silently "ok"
+                invalid += 1
+                if invalid_example is None:
+                    invalid_example = str(res["invalid"])[:300]
             stats.merge(res.get("stats", {}))
             if res.get("extra_keys") is not None:
                 keys |= res["extra_keys"]
@@ -177,6 +184,10 @@ def _worker(args):
     finally:
         ctx.close()
     stats.merge(ctx.stats)
+    if err is None and invalid > max(3, cases // 50):
+        err = "%d of %d generated cases were rejected by the property's own renderer/model, e.g.: %s" % (invalid, cases, invalid_example)
+    if invalid:
+        stats.inc("invalid_cases", invalid)
     return {"stats": dict(stats), "keys": keys, "violations": violations, "samples": samples, "cases": cases,
             "executions": ctx.executions, "unconfirmed": ctx.unconfirmed, "error": err, "digest": ctx.digest}
 
